@@ -57,16 +57,31 @@ pub const VEC_OPS: &[&str] = &[
     "vec.assert_not_equal_to_fixed",
 ];
 
+/// The same gadget with capacity 12 and alignment 4 (trimming then realigns by 0..3
+/// positions); contents are read through comparisons with constants.
+pub const VEC4_OPS: &[&str] = &["vec4.limits", "vec4.flags", "vec4.trim", "vec4.is_equal", "vec4.assert_equal", "vec4.is_equal_to_fixed"];
+pub const M4: usize = 12;
+pub const A4: usize = 4;
+
 pub fn vec_ops() -> Vec<String> {
-    VEC_OPS.iter().map(|s| s.to_string()).collect()
+    VEC_OPS.iter().chain(VEC4_OPS).map(|s| s.to_string()).collect()
+}
+
+fn cap(c: &OpCase) -> (usize, usize) {
+    if c.op.starts_with("vec4.") {
+        (M4, A4)
+    } else {
+        (M, A)
+    }
 }
 
 /// p = [len1, chosen filler 1, len2, chosen filler 2, n (trim)];
 /// ins = payload 1, filler 1, payload 2, filler 2.
 pub fn gen_case(rng: &mut Prng, op: &str) -> OpCase {
+    let cm = if op.starts_with("vec4.") { M4 } else { M };
     let len1 = match rng.below(4) {
-        0 => *rng.pick(&[0usize, 1, M - 1, M]),
-        _ => rng.usize(M + 1),
+        0 => *rng.pick(&[0usize, 1, cm - 1, cm]),
+        _ => rng.usize(cm + 1),
     };
     let payload1: Vec<Fq> = (0..len1)
         .map(|_| match rng.below(4) {
@@ -84,21 +99,21 @@ pub fn gen_case(rng: &mut Prng, op: &str) -> OpCase {
             p
         }
         3 if len1 > 0 => payload1[..len1 - 1].to_vec(),
-        4 if len1 < M => {
+        4 if len1 < cm => {
             let mut p = payload1.clone();
             p.push(Fq::ZERO);
             p
         }
-        _ => (0..rng.usize(M + 1)).map(|_| draw_fq(rng)).collect(),
+        _ => (0..rng.usize(cm + 1)).map(|_| draw_fq(rng)).collect(),
     };
     let chosen1 = rng.chance(2, 3);
     let chosen2 = rng.chance(1, 2);
     let f1 = if chosen1 { uniform_fq(rng) } else { Fq::ZERO };
     let f2 = if chosen2 { uniform_fq(rng) } else { Fq::ZERO };
     let n = match rng.below(3) {
-        0 => len1.min(M) as u64,
-        1 => (len1 as u64 + 1).min(M as u64),
-        _ => rng.below(M as u64 + 1),
+        0 => len1.min(cm) as u64,
+        1 => (len1 as u64 + 1).min(cm as u64),
+        _ => rng.below(cm as u64 + 1),
     };
     let mut ins: Vec<Fe> = payload1.iter().map(|x| Fe(*x)).collect();
     ins.push(Fe(f1));
@@ -216,8 +231,13 @@ impl Circuit<F> for VecCircuit {
     }
 }
 
-fn lims(cap: usize, len: usize) -> (Fq, Fq) {
-    let r = if cap == M { get_lims::<M, A>(len) } else { get_lims::<L, A>(len) };
+fn lims(cap: usize, align: usize, len: usize) -> (Fq, Fq) {
+    let r = match (cap, align) {
+        (M, A) => get_lims::<M, A>(len),
+        (M4, A4) => get_lims::<M4, A4>(len),
+        (L, A) => get_lims::<L, A>(len),
+        _ => unreachable!("vector shape"),
+    };
     (Fq::from(r.start as u64), Fq::from(r.end as u64))
 }
 
@@ -238,22 +258,29 @@ pub fn check(c: &OpCase, publics: &[Fq]) -> Result<bool, String> {
         return Ok(false);
     }
     let bit = |b: bool| Fq::from(b as u64);
+    let (cm, ca) = cap(c);
     let expect: Vec<Fq> = match c.op.split('.').nth(1).unwrap() {
         "limits" => {
-            let (s, e) = lims(M, p1.len());
+            let (s, e) = lims(cm, ca, p1.len());
             vec![s, e]
         }
         "flags" => {
-            let r = get_lims::<M, A>(p1.len());
-            (0..M).map(|i| bit(!r.contains(&i))).collect()
+            let r = if cm == M { get_lims::<M, A>(p1.len()) } else { get_lims::<M4, A4>(p1.len()) };
+            (0..cm).map(|i| bit(!r.contains(&i))).collect()
+        }
+        "trim" if cm == M4 => {
+            // limits, then the trimmed vector compared with its expected payload and with an altered one
+            let n = c.p[4] as usize;
+            let (s, e) = lims(M4, A4, p1.len() - n);
+            vec![s, e, bit(true), bit(false)]
         }
         "trim" => {
             let n = c.p[4] as usize;
-            let (s, e) = lims(M, p1.len() - n);
+            let (s, e) = lims(M, A, p1.len() - n);
             vec![s, e, textbook_poseidon(&p1[n..])]
         }
         "resize" => {
-            let (s, e) = lims(L, p1.len());
+            let (s, e) = lims(L, A, p1.len());
             vec![s, e, textbook_poseidon(&p1)]
         }
         "is_equal" | "is_equal_to_fixed" => vec![bit(p1 == p2)],
@@ -264,8 +291,10 @@ pub fn check(c: &OpCase, publics: &[Fq]) -> Result<bool, String> {
         Ok(true)
     } else {
         Err(format!(
-            "vector of {} elements (capacity {M}, alignment {A}), second operand of {} elements, trim {}: the circuit publishes {:?}, the definition gives {:?}",
+            "vector of {} elements (capacity {}, alignment {}), second operand of {} elements, trim {}: the circuit publishes {:?}, the definition gives {:?}",
             p1.len(),
+            cap(c).0,
+            cap(c).1,
             p2.len(),
             c.p[4],
             publics.iter().map(|x| Fe(*x)).collect::<Vec<_>>(),
@@ -280,9 +309,93 @@ pub fn input_class(c: &OpCase) -> String {
     let name = c.op.split('.').nth(1).unwrap_or("");
     let uses_flags = matches!(name, "flags" | "is_equal" | "is_not_equal" | "assert_equal" | "assert_not_equal");
     let len = c.p[0] as usize;
-    if uses_flags && len > 0 && len <= A {
+    if uses_flags && len > 0 && len <= cap(c).1 {
         "[data starts in the last chunk: 0 < len <= A]".into()
     } else {
         String::new()
+    }
+}
+
+/// An element that differs from the payload in one position (or in length).
+fn altered(p: &[Fq]) -> Vec<Fq> {
+    let mut q = p.to_vec();
+    match q.last_mut() {
+        Some(x) => *x += Fq::ONE,
+        None => q.push(Fq::ONE),
+    }
+    q
+}
+
+#[derive(Clone)]
+pub struct Vec4Circuit {
+    pub case: OpCase,
+    pub known: bool,
+}
+
+impl Circuit<F> for Vec4Circuit {
+    type Config = <VectorGadget<F> as FromScratch<F>>::Config;
+    type FloorPlanner = SimpleFloorPlanner;
+    type Params = ();
+    fn without_witnesses(&self) -> Self {
+        Vec4Circuit { case: self.case.clone(), known: false }
+    }
+    fn configure(meta: &mut ConstraintSystem<F>) -> Self::Config {
+        let committed = meta.instance_column();
+        let plain = meta.instance_column();
+        VectorGadget::configure_from_scratch(meta, &[committed, plain])
+    }
+    fn synthesize(&self, config: Self::Config, mut l: impl Layouter<F>) -> Result<(), Error> {
+        let ng = NG::new_from_scratch(&config);
+        let vg = VectorGadget::new(&ng);
+        let c = &self.case;
+        let (p1, f1, p2, f2) = parts(c);
+        let val = |v: Vec<Fq>| if self.known { Value::known(v) } else { Value::unknown() };
+        let x: AssignedVector<F, AssignedNative<F>, M4, A4> = vg.assign_with_filler(&mut l, val(p1.clone()), f1)?;
+        let publish_bit = |l: &mut _, b: &AssignedBit<F>| -> Result<(), Error> {
+            let n: AssignedNative<F> = b.clone().into();
+            ng.constrain_as_public_input(l, &n)
+        };
+        match c.op.split('.').nth(1).unwrap() {
+            "limits" => {
+                let (s, e) = vg.get_limits(&mut l, &x)?;
+                ng.constrain_as_public_input(&mut l, &s)?;
+                ng.constrain_as_public_input(&mut l, &e)?;
+            }
+            "flags" => {
+                for b in &vg.padding_flag(&mut l, &x)? {
+                    publish_bit(&mut l, b)?;
+                }
+            }
+            "trim" => {
+                let n = c.p[4] as usize;
+                let t = vg.trim_beginning(&mut l, &x, n)?;
+                let (s, e) = vg.get_limits(&mut l, &t)?;
+                ng.constrain_as_public_input(&mut l, &s)?;
+                ng.constrain_as_public_input(&mut l, &e)?;
+                // the expected payload is a constant of the circuit: computed from the honest
+                // input, which is legitimate because the Byzantine stage never edits payload cells
+                let rest: Vec<Fq> = p1.iter().skip(n).copied().collect();
+                let b1 = vg.is_equal_to_fixed(&mut l, &t, rest.clone())?;
+                publish_bit(&mut l, &b1)?;
+                let b2 = vg.is_equal_to_fixed(&mut l, &t, altered(&rest))?;
+                publish_bit(&mut l, &b2)?;
+            }
+            "is_equal_to_fixed" => {
+                let b = vg.is_equal_to_fixed(&mut l, &x, p2)?;
+                publish_bit(&mut l, &b)?;
+            }
+            name => {
+                let y: AssignedVector<F, AssignedNative<F>, M4, A4> = vg.assign_with_filler(&mut l, val(p2), f2)?;
+                match name {
+                    "is_equal" => {
+                        let b = vg.is_equal(&mut l, &x, &y)?;
+                        publish_bit(&mut l, &b)?;
+                    }
+                    "assert_equal" => vg.assert_equal(&mut l, &x, &y)?,
+                    o => panic!("unknown vec4 op {o}"),
+                }
+            }
+        }
+        ng.load_from_scratch(&mut l)
     }
 }
